@@ -285,6 +285,18 @@ func (r *symRun) varValue(id *ast.Ident, s kit.S) *sval {
 			return r.eval(re, s)
 		}
 	}
+	// a named result that has not been assigned yet holds its zero value
+	if cur := r.st.Cur(); cur != nil && cur.Type != nil && cur.Type.Results != nil {
+		for _, fld := range cur.Type.Results.List {
+			for _, nm := range fld.Names {
+				if r.info.Defs[nm] == o {
+					if z := r.zero(o.Type()); z != nil {
+						return z
+					}
+				}
+			}
+		}
+	}
 	if types.Object(r.wl.w.Batch) == o {
 		switch r.v.second {
 		case 1:
